@@ -413,6 +413,18 @@ structure RollbackPlan where
   links : List Path := []
   failed : Bool := false
 
+/-- the root entry in the first loop of `Rollback`: the root directory is not restored, but it
+has to exist, nothing below it could be restored otherwise (`MkdirAll`, not `copyDir`: `copyDir`
+never touches the root).  Returns whether an error was collected into `multiErr`. -/
+def ensureRoot (p : Path) (i : Info) : M Bool := do
+  match ← attempt (lexists cfg .base p) with
+  | .error _ => pure true
+  | .ok (some _) => pure false
+  | .ok none =>
+    match ← attempt (primUnit cfg .base (.mkdirAll p (i.perm &&& 0o777))) with
+    | .error _ => pure true
+    | .ok () => pure false
+
 /-- the first loop of `Rollback`, over the tracked paths -/
 def classify : List (Path × Option Info) → RollbackPlan → M RollbackPlan
   | [], pl => pure pl
@@ -422,7 +434,9 @@ def classify : List (Path × Option Info) → RollbackPlan → M RollbackPlan
     | .ok (some _) => classify rest { pl with removeBase := pl.removeBase ++ [p] }
     | .ok none => classify rest pl
   | (p, some i) :: rest, pl =>
-    if p = rootP then classify rest pl
+    if p = rootP then do
+      let failed ← ensureRoot cfg p i
+      classify rest (if failed then { pl with failed := true } else pl)
     else match i.kind with
       | .dir => classify rest { pl with dirs := pl.dirs ++ [p] }
       | .file => classify rest { pl with files := pl.files ++ [p] }
